@@ -209,7 +209,10 @@ def hex_from_double(value: float | None, factor: int = 1) -> HexStr4:
         return "7FFF"
     if not isinstance(value, float | int):
         raise ValueError(f"Invalid value: {value}, is not a double (a float/int)")
-    return f"{int(value * factor):04X}"
+    result = round(value * factor)  # not int(): e.g. 0.29 * 100 == 28.999999999999996
+    if not 0 <= result <= 0xFFFF:  # must fit in an unsigned 16-bit word
+        raise ValueError(f"Invalid value: {value}, is out of range")
+    return f"{result:04X}"
 
 
 def hex_to_dtm(value: HexStr12 | HexStr14) -> str | None:  # from parsers
